@@ -63,6 +63,24 @@ func TestRecordDividers(t *testing.T) {
 			}
 		}
 	}
+	// longer lists (rounding leftovers of 2 and more only appear with 5+ priorities), sparse dividends
+	for _, ps := range descLists(divUniverse, len(divUniverse)) {
+		if len(ps) <= maxN {
+			continue
+		}
+		for _, d := range []uint{1, 2, 3, 12, 37, 38, 40} {
+			for _, fn := range []string{"fair", "rate"} {
+				out.put(callDividers(fn, ps, d, nil))
+				out.put(callDividers(fn, ps, d, map[uint]uint{7: 4, ps[1]: 1}))
+			}
+		}
+	}
+	for _, ps := range [][]uint{{9, 7, 5, 3, 1}, {12, 11, 10, 9, 8}, {8, 7, 6, 5, 4, 3, 2, 1}, {6, 5, 4, 3, 2, 1}} {
+		for d := uint(0); d <= 40; d++ {
+			out.put(callDividers("rate", ps, d, map[uint]uint{}))
+			out.put(callDividers("fair", ps, d, map[uint]uint{}))
+		}
+	}
 	t.Logf("RECORDED div_calls=%d", out.n)
 }
 
